@@ -337,7 +337,8 @@ int EGLPNUM_TYPENAME_ILLread_lp_state_has_colon (
 	char *pp;
 
 	EGLPNUM_TYPENAME_ILLread_lp_state_skip_blanks (state, 0);
-	for (pp = state->p; *pp != '\n'; pp++)
+	/* a line cut at a comment, or the last line of a file, has no '\n' */
+	for (pp = state->p; *pp != '\n' && *pp != '\0'; pp++)
 	{
 		if (*pp == ':')
 		{
